@@ -47,6 +47,7 @@ namespace {
   struct Entry {
     int overload;
     std::vector<std::string> received;
+    bool threw = false; // the body raised std::bad_cast after logging its entry
   };
   struct ActorLog {
     std::vector<Entry> entries;
@@ -106,6 +107,23 @@ namespace {
                        name);
                }};
   }
+  // an overload whose BODY fails with std::bad_cast (a failed dynamic_cast, say) after it was entered:
+  // the exception belongs to the caller, no other overload may be tried because of it
+  template<typename P1, bool BoxedCast = false>
+  Sig sig1_throwing(Param p1) {
+    return Sig{{p1}, [](Engine &e, const std::string &name, int id) {
+                 e.add(fun([id](P1 a) -> int {
+                         Entry en{id, {desc(a)}};
+                         en.threw = true;
+                         my_log().entries.push_back(en);
+                         if (BoxedCast) {
+                           throw exception::bad_boxed_cast(utility::Static_String("raised by the body"));
+                         }
+                         throw std::bad_cast();
+                       }),
+                       name);
+               }};
+  }
   template<typename P1, typename P2>
   Sig sig2(Param p1, Param p2) {
     return Sig{{p1, p2}, [](Engine &e, const std::string &name, int id) {
@@ -159,6 +177,11 @@ namespace {
         /*37*/ sig2<int &, int>({INT, REF}, {INT, VAL}),
         /*38*/ sig2<const std::string &, const std::string &>({STR, CREF}, {STR, CREF}),
         /*39*/ sig2<std::shared_ptr<Base6>, std::shared_ptr<Base6>>({BASE, SP}, {BASE, SP}),
+        /*40*/ sig1_throwing<const Base6 &>({BASE, CREF}),
+        /*41*/ sig1_throwing<int>({INT, VAL}),
+        /*42*/ sig1_throwing<const std::string &>({STR, CREF}),
+        // never generated (N_GENERATED below): body raises bad_boxed_cast itself — known finding C06-K1
+        /*43*/ sig1_throwing<const Base6 &, true>({BASE, CREF}),
     };
     return c;
   }
@@ -263,7 +286,7 @@ namespace {
       const int n = int(plan.range(6, thorough ? 40 : 30));
       J &ops = p["ops"];
       ops = J::array();
-      const size_t ncat = catalogue().size();
+      const size_t ncat = catalogue().size() - 1; // the last signature only appears in the known-finding replay
       const size_t nargs = arg_pool().size();
       bool conv_planned = false;
       int fetches = 0;
@@ -532,6 +555,17 @@ namespace {
         const bool succeeded = R.out[0] == '=';
         if (R.out.rfind("!!", 0) == 0) {
           bad("harness-error", "unexpected exception in the harness");
+          continue;
+        }
+        bool body_threw = false;
+        for (auto &en : R.entries) {
+          body_threw = body_threw || en.threw;
+        }
+        if (body_threw) {
+          r.counters["probe_entered_body_raised_bad_cast"] += 1;
+          if (R.entries.size() != 1 || succeeded || R.out.find("bad_cast") == std::string::npos) {
+            bad("exception-of-entered-body-not-delivered", std::to_string(R.entries.size()) + " overloads were entered after the first one's body raised std::bad_cast; the call must fail with that exception and enter nothing else");
+          }
           continue;
         }
         if (R.entries.size() != (succeeded ? 1u : 0u)) {
